@@ -14,8 +14,10 @@ CLAIM = dict(
          "exports = designated names + every type definition with the sort of the designated node; agreement with "
          "CompositionGraph::imports() after canonicalisation; invariance of the interface under dependency-preserving "
          "permutations of node creation. Coq theorems: canonical_is_highest_on_track (the aggregator's name bookkeeping "
-         "always answers the highest version on the track, for every aggregation order), exports/imports of the model "
-         "encoder equal the specification (every emission order, every type-encoder behaviour).",
+         "always answers with ONE entry per semver track, named for the highest aggregated version, for every aggregation "
+         "order), canon_order_independent, imports_spec and exports_spec (the imports/exports of the model encoder's log equal "
+         "the specification for every emission order and every type-encoder behaviour), with _refuted witnesses for the "
+         "side conditions.",
     design_ref="DESIGN.md §5 C03",
     note="Trusted: Coq kernel, extraction, OCaml driver, Rust harness incl. the section reader. Dependency-interface "
          "imports made by TypeEncoder::import_deps are recognised by name (an interface id of the universe, instance sort), "
